@@ -389,6 +389,8 @@ def rule_receivers(rm, em):
             for o in origins:
                 if o.kind == 'callres' and o.data.ruid and (o.data.ruid in rm.lm.can_lock):
                     continue
+                if o.kind == 'callres' and hm_method(o.data) in ('get', 'get_key_value') and reg_class_of_call(o.data) in ('REGISTRY', 'CONTEXT'):
+                    continue
                 if o.kind == 'param' and b.id != em.exec.id and _param_from_lookup(rm, em, b, o):
                     continue
                 bad_o.append(repr(o))
